@@ -95,6 +95,20 @@ CLAIMED = {
          "h2_init_stream inheritance not modelled; trusted: Coq kernel, extraction, harness glue, python reference",
     technique="Coq proof over executable model + differential correspondence (extracted OCaml vs C harness) + language reference monitor",
     design="5/C14"),
+ "C16": dict(
+    text="Coq theorems over an executable model of mod_auth.c's decision logic (rule lookup, Basic decode incl. li_base64_dec, Digest parameter scanner, "
+         "parameter/realm/algorithm/uri/response-format checks, nonce timestamp window and nonce-secret recomputation, response recomputation, "
+         "credential cache query/hit/insert and periodic cleanup, plain backend): in every reachable state a request is served only with credentials "
+         "the backend accepts now -- or accepted for the same rule, user and secret at most max-age+7 s ago --, bound to the request's method and target, "
+         "a fresh (and with nonce-secret server-derived) nonce and an allowed algorithm; a covered path never passes; cache entries are vouched and young "
+         "(for every hash function, every cache-key seed/collision pattern, every header, history and clock); tied by differential correspondence on "
+         "random histories through mod_auth_uri_handler/mod_auth_periodic with the real mod_authn_file.c backend and judged by an RFC 7617/7616 monitor",
+    note="MD5 is a section variable (theorems hold for any hash; extracted model runs the real MD5); 'username*' and userhash=true requests are "
+         "outcome Unmodelled in the model (the monitor skips them); build has no SHA-256 (no crypto lib), so only MD5/MD5-sess run; hypothesis max-age >= 0; "
+         "a Basic password is compared as a C string by the plain backend (bytes after a NUL ignored): documented, not judged; htdigest/htpasswd "
+         "backends, ldap/gssapi/pam/dbi modules not modelled; trusted: Coq kernel, extraction, OCaml Digest (MD5) in the driver, harness glue, python monitor",
+    technique="Coq proof over executable model + differential correspondence (extracted OCaml vs C harness) + RFC credential monitor",
+    design="5/C16"),
 }
 NOT_YET = "no check built yet in this round (planned, see DESIGN.md section 5)"
 
